@@ -377,31 +377,107 @@ def floats_from_statement(ctx, py):
     `metavars` must be derived from the statement's variables, never from the metavariables of the converted pattern."""
     conv = py.cls('MetamathConverter')
     n = 0
-    for mname, fn in conv.methods.items():
-        env = {}
+    CTORS_ = ('Axiom', 'AxiomWithAntecedents', 'Lemma', 'LemmaWithAntecedents')
+
+    def flows(fn):
+        """local name -> expressions that flow into it: assigned values and what is added by update / add / |="""
+        env: dict = {}
         for st in ast.walk(fn):
             if isinstance(st, (ast.Assign, ast.AnnAssign)):
                 t = st.targets[0] if isinstance(st, ast.Assign) else st.target
                 if isinstance(t, ast.Name) and st.value is not None:
                     env.setdefault(t.id, []).append(st.value)
+            elif isinstance(st, ast.AugAssign) and isinstance(st.target, ast.Name):
+                env.setdefault(st.target.id, []).append(st.value)
+            elif isinstance(st, ast.Call) and isinstance(st.func, ast.Attribute) and isinstance(st.func.value, ast.Name) \
+                    and st.func.attr in ('update', 'add', 'extend', 'append') and st.args:
+                env.setdefault(st.func.value.id, []).append(st.args[0])
+        return env
+
+    def closure(e, env, scopes=None, alias=None):
+        """expressions that flow into e; a call of a converter helper contributes what the helper returns (its locals are added to
+        env, its scope to `scopes`, and `alias` records which caller name each helper parameter stands for)"""
+        seen, todo, out = set(), [e], []
+        while todo:
+            x0 = todo.pop()
+            out.append(x0)
+            for x in ast.walk(x0):
+                if isinstance(x, ast.Name) and x.id in env and x.id not in seen:
+                    seen.add(x.id)
+                    todo.extend(env[x.id])
+                g = None
+                if isinstance(x, ast.Call) and isinstance(x.func, ast.Attribute) and isinstance(x.func.value, ast.Name) and x.func.value.id == 'self' \
+                        and x.func.attr in conv.methods:
+                    g, is_method = conv.methods[x.func.attr], 'staticmethod' not in [ast.unparse(d) for d in conv.methods[x.func.attr].decorator_list]
+                elif isinstance(x, ast.Call) and isinstance(x.func, ast.Name) and x.func.id in py.modules[conv.module].functions:
+                    g, is_method = py.modules[conv.module].functions[x.func.id], False
+                if g is not None and ('helper', g.name) not in seen and scopes is not None:
+                    seen.add(('helper', g.name))
+                    scopes.append(g)
+                    for k, v in flows(g).items():
+                        env.setdefault(k, []).extend(v)
+                    params = [a.arg for a in g.args.args][1 if is_method else 0:]
+                    for pn, a in zip(params, x.args):
+                        if isinstance(a, ast.Name) and alias is not None:
+                            alias.setdefault(a.id, set()).add(pn)
+                    todo.extend(v for _st, v in returned_exprs(g))
+        return out
+
+    def ctor_args(fn, call):
+        """positional arguments of a constructor call; `C(*self.helper(..))` is read through the tuple the helper returns"""
+        if len(call.args) == 1 and isinstance(call.args[0], ast.Starred) and isinstance(call.args[0].value, ast.Call):
+            h = call.args[0].value
+            if isinstance(h.func, ast.Attribute) and isinstance(h.func.value, ast.Name) and h.func.value.id == 'self' and h.func.attr in conv.methods:
+                g = conv.methods[h.func.attr]
+                rets = [v for _st, v in returned_exprs(g)]
+                if len(rets) == 1 and isinstance(rets[0], ast.Tuple):
+                    return g, list(rets[0].elts)
+            return fn, None
+        return fn, list(call.args)
+
+    for mname, fn in conv.methods.items():
         for call in ast.walk(fn):
-            if not (isinstance(call, ast.Call) and isinstance(call.func, ast.Name) and call.func.id in (
-                    'Axiom', 'AxiomWithAntecedents', 'Lemma', 'LemmaWithAntecedents') and len(call.args) >= 5):
+            if not (isinstance(call, ast.Call) and isinstance(call.func, ast.Name) and call.func.id in CTORS_):
+                continue
+            scope, args = ctor_args(fn, call)
+            ctx.require(args is not None, f'{mname}: the arguments of {call.func.id}(..) cannot be read')
+            if len(args) < 5:
                 continue
             n += 1
-            seen, todo, bad = set(), [call.args[4]], None
-            while todo:
-                e = todo.pop()
+            env = flows(scope)
+            bad = None
+            for e in closure(args[4], env):
                 for x in ast.walk(e):
                     if isinstance(x, ast.Call) and isinstance(x.func, ast.Attribute) and x.func.attr == 'metavars' and not x.args:
                         bad = x
-                    if isinstance(x, ast.Name) and x.id in env and x.id not in seen:
-                        seen.add(x.id)
-                        todo.extend(env[x.id])
             ctx.ob('floats-from-statement', f'{mname}:{call.func.id}@{call.lineno - fn.lineno}', bad is None,
                    f'{mname} builds a {call.func.id} whose `metavars` depend on `{ast.unparse(bad)[:60] if bad else ""}`, the metavariables of the '
                    f'CONVERTED pattern: a variable the pattern drops (an ignored notation parameter) still has a floating hypothesis on the '
                    f'Metamath stack, which the replay then never pops', py.where(conv.module, call))
+            if call.func.id.endswith('WithAntecedents') and len(args) >= 6:
+                # Metamath pushes the floating hypotheses of the variables of the conclusion AND of every essential hypothesis: the
+                # metavars of the rule are the union of its own and of each antecedent's
+                base = args[0].value.id if isinstance(args[0], ast.Attribute) and isinstance(args[0].value, ast.Name) else None
+                coll = None
+                for x in ast.walk(args[5]):
+                    if isinstance(x, ast.comprehension) and isinstance(x.iter, ast.Name):
+                        coll = x.iter.id
+                reads = set()
+                scopes, alias = [scope], {}
+                for e in closure(args[4], dict(env), scopes, alias):
+                    for x in ast.walk(e):
+                        if isinstance(x, ast.Attribute) and x.attr == 'metavars' and isinstance(x.value, ast.Name):
+                            reads.add(x.value.id)
+                colls = {coll} | alias.get(coll, set())
+                bases = {base} | alias.get(base, set())
+                iter_vars = {t.id for sc_ in scopes for nd in ast.walk(sc_) if isinstance(nd, (ast.For, ast.comprehension))
+                             and isinstance(nd.iter, ast.Name) and nd.iter.id in colls for t in ast.walk(nd.target) if isinstance(t, ast.Name)}
+                ok = base is not None and coll is not None and bool(reads & bases) and bool(reads & iter_vars)
+                ctx.ob('floats-from-statement', f'{mname}:{call.func.id}/union@{call.lineno - fn.lineno}', ok,
+                       f'{mname} builds a {call.func.id} whose `metavars` are derived from {sorted(reads) or "nothing"}: they must unite the '
+                       f'metavariables of the rule itself (`{base}.metavars`) with those of every antecedent in `{coll}` - a variable of the '
+                       f'conclusion that occurs in no hypothesis (a1i: from ph0 infer ph1 -> ph0) still has a floating hypothesis on the stack',
+                       py.where(conv.module, call), facts={'reads': sorted(reads), 'antecedent variables': sorted(iter_vars)})
     ctx.floor('floats-from-statement', 5)
 
 
@@ -483,7 +559,22 @@ def inline_locals(stmts, e, keep=()):
                 and len(s.targets[0].elts) == len(s.value.elts) and all(isinstance(t, ast.Name) for t in s.targets[0].elts):
             for t, v in zip(s.targets[0].elts, s.value.elts):          # a, b = (x, y)
                 defs[t.id][-1] = v
-    single = {k: v[0] for k, v in defs.items() if len(v) == 1 and v[0] is not None and k not in keep}
+    # a local that is changed after it was bound (x.append(..), x[k] = .., x |= ..) does not denote its defining expression any more
+    mutated = set()
+    for s in stmts:
+        for n in ast.walk(s):
+            if isinstance(n, ast.Call) and isinstance(n.func, ast.Attribute) and isinstance(n.func.value, ast.Name) \
+                    and n.func.attr in ('append', 'extend', 'insert', 'add', 'update', 'pop', 'remove', 'clear', 'sort', 'reverse', 'setdefault',
+                                        'discard', 'popitem', 'appendleft', 'extendleft'):
+                mutated.add(n.func.value.id)
+            elif isinstance(n, (ast.Subscript, ast.Attribute)) and isinstance(n.ctx, (ast.Store, ast.Del)) and isinstance(n.value, ast.Name):
+                mutated.add(n.value.id)
+            elif isinstance(n, ast.AugAssign) and isinstance(n.target, ast.Name):
+                mutated.add(n.target.id)
+    # ... unless the definition only NAMES an existing object (`t = self.table`): the change then happens to that object either way
+    def alias(v):
+        return isinstance(v, (ast.Name, ast.Attribute, ast.Subscript))
+    single = {k: v[0] for k, v in defs.items() if len(v) == 1 and v[0] is not None and k not in keep and (k not in mutated or alias(v[0]))}
 
     class T(ast.NodeTransformer):
         depth = 0
@@ -510,8 +601,8 @@ def returned_exprs(fn):
                 if isinstance(v, ast.Name) and i > 0 and isinstance(stmts[i - 1], ast.Assign) and len(stmts[i - 1].targets) == 1 \
                         and isinstance(stmts[i - 1].targets[0], ast.Name) and stmts[i - 1].targets[0].id == v.id:
                     v = stmts[i - 1].value
-                elif isinstance(v, ast.Name):
-                    v = inline_locals(fn.body, v, {a.arg for a in fn.args.args})
+                # single-assignment locals of the function body that only name a part of the expression
+                v = inline_locals(fn.body, v, {a.arg for a in fn.args.args})
                 out.append((st, v))
             if isinstance(st, (ast.FunctionDef, ast.AsyncFunctionDef, ast.ClassDef)):
                 continue
@@ -802,7 +893,8 @@ def publication(ctx, py, fn, tail, CONV, TARGET, STACK, receivers):
                         if not iso:
                             continue
                         var, pol = iso[0]
-                        out.setdefault(pol, set()).add(re.sub(rf'\b{var}\b', '$AX', ast.unparse(c.args[0])))
+                        arg = inline_locals(sp.actions, c.args[0], {var})          # a local that only names the expression
+                        out.setdefault(pol, set()).add(re.sub(rf'\b{var}\b', '$AX', ast.unparse(arg)))
         return out
     decl_loops = [n for n in mn.body if isinstance(n, ast.For) and ast.unparse(n.iter).endswith('.exported_axioms')]
     ctx.require(len(decl_loops) == 1, 'translate.main: loop declaring the exported axioms not found')
